@@ -59,6 +59,21 @@ func perms(n int) [][]int {
 	return out
 }
 
+// Contains / Not().Contains tests count the x's of the abstract strings: those cases use the plain string style
+func usesContains(n *Node) bool {
+	for _, t := range n.Tests {
+		if t.Kind == "has" || t.Kind == "nhas" {
+			return true
+		}
+	}
+	for _, k := range n.Kids {
+		if usesContains(k.Node) {
+			return true
+		}
+	}
+	return false
+}
+
 // run a case under every visit order of its root fields (forced by insertion order and observed
 // through the field events), writing one trace per order
 func (t *traceWriter) emitCase(c *Case, pair string, allOrders bool) []Ret {
@@ -68,7 +83,7 @@ func (t *traceWriter) emitCase(c *Case, pair string, allOrders bool) []Ret {
 	}
 	t.cases++
 	strStyle = t.cases % 2
-	if t.chainMode || c.Fe == "env" {
+	if t.chainMode || c.Fe == "env" || usesContains(c.Schema) {
 		strStyle = 0 // Contains("xx") must mean "at least two characters"; the environment front end trims whitespace
 	}
 	defer func() {
